@@ -404,11 +404,12 @@ func vfIntersect(a, b []int) []int {
 func TestVerifC03Probes(t *testing.T) {
 	vfSetup(t)
 	c := ev.For("C03")
-	c.Rule("probes: per case one generated bridge (seed), 2-5 probe connections of generated classes (empty, random bytes up to 20000 and floods of 64 KiB .. 1 MiB, valid handshake truncated / extended / one bit flipped in representative, padding, mark or MAC, wrong hour +-2/3, wrong identity, byte-identical replay of an accepted handshake (in one set-up of ten with the bridge's replay filter brought to its capacity of 102400 around it, the genuine handshake not among the eldest), in half of the cases on a connection that was opened before the genuine client connected (whose genuine session has meanwhile carried a burst sized around the handshake's own length), low-order representatives with a valid MAC), each released in generated segments with the armed deadline optionally fired in between, ended by peer disconnect or by firing the virtual deadlines; the last connection goes to a second factory built from the same seed; oracle: accepted handshakes are remembered for at least the three hours they stay valid, zero bytes written, everything sent is consumed, close only after the last armed deadline fired (unless the peer left first), deadline armed before the first read, final deadline = accept + 30 s + d with one whole d in 0..59 common to all connections of the seed; non-trivial = any class other than 'empty'; fingerprint = class, parameters, plan")
+	c.Rule("probes: per case one generated bridge (seed), 2-5 probe connections of generated classes (empty, random bytes up to 20000 and floods of 64 KiB .. 1 MiB, valid handshake truncated / extended / one bit flipped in representative, padding, mark or MAC, wrong hour +-2/3, wrong identity, byte-identical replay of an accepted handshake (in one set-up of four the genuine client's connection broke while the bridge was writing its reply - write error at byte 0, 1, 96 or 500 -, the handshake has been presented all the same; in one set-up of ten with the bridge's replay filter brought to its capacity of 102400 around it, the genuine handshake not among the eldest), in half of the cases on a connection that was opened before the genuine client connected (whose genuine session has meanwhile carried a burst sized around the handshake's own length), low-order representatives with a valid MAC), each released in generated segments with the armed deadline optionally fired in between, ended by peer disconnect or by firing the virtual deadlines; the last connection goes to a second factory built from the same seed; oracle: accepted handshakes are remembered for at least the three hours they stay valid, zero bytes written, everything sent is consumed, close only after the last armed deadline fired (unless the peer left first), deadline armed before the first read, final deadline = accept + 30 s + d with one whole d in 0..59 common to all connections of the seed; non-trivial = any class other than 'empty'; fingerprint = class, parameters, plan")
 	c.Assume("deadline values are judged as intervals around the server's own clock reading (a few ms wide); cases measured on a stalled machine (> 0.5 s between accept and first deadline call) are discarded and counted")
 	for _, cl := range vfProbeClasses {
 		c.Floor("probe-"+cl+"/probe", 0.03)
 	}
+	c.Floor("probe-replay-of-handshake-whose-reply-failed/probe-replay", 0.08)
 	rapid.Check(t, func(rt *rapid.T) {
 		rk := rapid.Uint64().Draw(rt, "randKey")
 		defer vfRandSeedKey(rk)()
@@ -435,6 +436,7 @@ func TestVerifC03Probes(t *testing.T) {
 			}
 		}
 		var prior []byte
+		replyFailed := false
 		var earlyConn *vfSrvConn
 		var cand []int
 		haveCand := false
@@ -469,6 +471,34 @@ func TestVerifC03Probes(t *testing.T) {
 						osf.replayFilter.TestAndSet(time.Now(), detrand.Bytes(rk^0xc03a000000000+uint64(i), 16))
 					}
 				}
+				// one set-up in four: the genuine client's connection breaks while the bridge writes its
+				// reply (write error at the first byte or later).  The handshake has been presented all
+				// the same, whoever recorded it replays it: silence
+				if !atCap && rapid.IntRange(0, 3).Draw(rt, "genuineReplyFails") == 0 {
+					scf, ferr := vfOpenServerConn(sf)
+					if scf != nil {
+						defer scf.n.Shutdown()
+					}
+					if ferr != nil {
+						rt.Fatalf("VIOL[c03-wedge]: %v", ferr)
+					}
+					clf := &refobfs4.Client{ID: refobfs4.Identity{Pub: br.ID.Pub, NodeID: br.ID.NodeID}, Key: refobfs4.NewEKey(ent),
+						Pad: ent(refobfs4.ClientMinPad + int(ent(1)[0])), Hour: hour0}
+					hsf := append([]byte(nil), clf.Handshake()...)
+					scf.n.WriteErrAt(wire.B, int64(rapid.SampledFrom([]int{0, 0, 1, 96, 500}).Draw(rt, "replyFailsAt")), vf10Err)
+					scf.n.Inject(wire.A, hsf)
+					scf.n.ReleaseAll(wire.A)
+					if err := scf.n.WaitQuiescent(wire.B); err != nil {
+						rt.Fatalf("VIOL[c03-wedge]: %v", err)
+					}
+					if pv, st := scf.ep.Panic(); pv != nil {
+						rt.Fatalf("VIOL[c03-panic]: %v\n%s", pv, st)
+					}
+					if scf.n.WriteErrHits(wire.B) > 0 {
+						replyFailed = true
+					}
+					prior = hsf
+				} else {
 				hs, ok, resp0, cl0, sc0, err := vfAcceptOne(sf, br, ent, 0)
 				if sc0 != nil {
 					defer sc0.n.Shutdown()
@@ -521,6 +551,7 @@ func TestVerifC03Probes(t *testing.T) {
 							rt.Fatalf("VIOL[c03-wedge]: %v", err)
 						}
 					}
+				}
 				}
 			}
 			probe, avoid, desc := vfGenProbe(rt, class, br, ent, hour0, prior)
@@ -579,7 +610,11 @@ func TestVerifC03Probes(t *testing.T) {
 		}
 		for _, d := range finished {
 			d := d
-			c.Case(d.fp, d.cls != "empty", []string{"probe", "probe-" + d.cls}, func() any { return map[string]any{"probe": d.desc, "seed": ev.Hex(br.Seed)} })
+			cl := []string{"probe", "probe-" + d.cls}
+			if d.cls == "replay" && replyFailed {
+				cl = append(cl, "probe-replay-of-handshake-whose-reply-failed")
+			}
+			c.Case(d.fp, d.cls != "empty", cl, func() any { return map[string]any{"probe": d.desc, "seed": ev.Hex(br.Seed)} })
 		}
 	})
 	vfDelayMu.Lock()
